@@ -2,22 +2,28 @@
 (* spec -> code: TLC (simulation mode) chooses an initial world and a history of edits and reads;
    printed at depth D and replayed on real repositories by drivers/c48_cachevalidity.py.
    hist holds only the INPUTS of the actions; outcomes are recomputed from the implementation's
-   observations by CacheValidity_Trace.                                                     *)
+   observations by CacheValidity_Trace.  A Read names the packages of the session IN ORDER
+   (field pkg = "p1", "p2", "p1p2" or "p2p1"): all of them are read through the same
+   repository / eclass-cache / cache objects.                                                *)
 EXTENDS CacheValidity_MC, Naturals
 CONSTANT D
 VARIABLES w0, hist
-A(ev, r, n, c, x, i, r2) == [ev |-> ev, r |-> r, n |-> n, cid |-> c, nest |-> x, inh |-> i, r2 |-> r2]
+A(ev, p, r, n, c, x, i, r2) == [ev |-> ev, pkg |-> p, r |-> r, n |-> n, cid |-> c, nest |-> x, inh |-> i, r2 |-> r2]
 SimInit == Init /\ w0 = w /\ hist = <<>>
 Log(a) == hist' = Append(hist, a) /\ UNCHANGED w0
-\* histories alternate: a read, then one edit, then a read ... (reads are the point)
-SimNext == Len(hist) < D /\ IF Len(hist) % 2 = 0 THEN Read /\ Log(A("Read", "-", "-", 0, FALSE, "", "-")) ELSE
-  \/ \E c \in 1..MaxCid, i \in InhCodes : EditEbuild(c, i) /\ Log(A("EditEbuild", "-", "-", c, FALSE, i, "-"))
-  \/ TouchEbuild /\ Log(A("TouchEbuild", "-", "-", 0, FALSE, "", "-"))
-  \/ \E r \in Repos, n \in Eclasses, c \in 1..MaxCid, x \in BOOLEAN : EditEclass(r, n, c, x) /\ Log(A("EditEclass", r, n, c, x, "", "-"))
-  \/ \E r \in Repos, n \in Eclasses : TouchEclass(r, n) /\ Log(A("TouchEclass", r, n, 0, FALSE, "", "-"))
-  \/ \E r \in Repos, n \in Eclasses : RemoveEclass(r, n) /\ Log(A("RemoveEclass", r, n, 0, FALSE, "", "-"))
-  \/ \E n \in Eclasses, r1, r2 \in Repos : MoveEclass(n, r1, r2) /\ Log(A("MoveEclass", r1, n, 0, FALSE, "", r2))
-  \/ StripInherit /\ Log(A("StripInherit", "-", "-", 0, FALSE, "", "-"))
+OrderSet(code) == CASE code = "p1" -> {"p1"} [] code = "p2" -> {"p2"} [] OTHER -> {"p1", "p2"}
+OrderCodes == IF Pkgs = {"p1"} THEN {"p1"} ELSE {"p1", "p2", "p1p2", "p2p1", "p1p2", "p2p1"}
+\* histories alternate: a read session, then one edit, then a read session ... (reads are the point)
+SimNext == Len(hist) < D /\ IF Len(hist) % 2 = 0
+  THEN \E code \in OrderCodes : Read(OrderSet(code)) /\ Log(A("Read", code, "-", "-", 0, FALSE, "", "-"))
+  ELSE
+  \/ \E p \in Pkgs, c \in 1..MaxCid, i \in InhCodes : EditEbuild(p, c, i) /\ Log(A("EditEbuild", p, "-", "-", c, FALSE, i, "-"))
+  \/ \E p \in Pkgs : TouchEbuild(p) /\ Log(A("TouchEbuild", p, "-", "-", 0, FALSE, "", "-"))
+  \/ \E r \in Repos, n \in Eclasses, c \in 1..MaxCid, x \in BOOLEAN : EditEclass(r, n, c, x) /\ Log(A("EditEclass", "-", r, n, c, x, "", "-"))
+  \/ \E r \in Repos, n \in Eclasses : TouchEclass(r, n) /\ Log(A("TouchEclass", "-", r, n, 0, FALSE, "", "-"))
+  \/ \E r \in Repos, n \in Eclasses : RemoveEclass(r, n) /\ Log(A("RemoveEclass", "-", r, n, 0, FALSE, "", "-"))
+  \/ \E n \in Eclasses, r1, r2 \in Repos : MoveEclass(n, r1, r2) /\ Log(A("MoveEclass", "-", r1, n, 0, FALSE, "", r2))
+  \/ \E p \in Pkgs : StripInherit(p) /\ Log(A("StripInherit", p, "-", "-", 0, FALSE, "", "-"))
 SimSpec == SimInit /\ [][SimNext]_<<vars, w0, hist>>
 Emit == Len(hist) # D \/ PrintT(<<"BEH", Kind, w0, hist>>)
 =============================================================================
